@@ -1,12 +1,13 @@
 """C14 - particles are independent; runs are reproducible and time-shift invariant."""
 from contracts import model as M
+from contracts import release_init as RI
 from contracts import roms_forcing as F
 from contracts import roms_sample as S
 from contracts import state as St
 from contracts import timekeeper as K
 from contracts import tracker as T
 
-UNITS = [M.ModelUpdate("sparse"), M.ModelUpdate("dense"), M.ModelUpdate(None), T.Update(""), T.Update("RK4"), F.Velocity(), F.ForceParticles(), F.Update("bracket"), S.Trilinear(), St.Compactify(), St.Append("arrays"), K.TKTime2Step()]
+UNITS = [M.ModelUpdate("sparse"), M.ModelUpdate("dense"), M.ModelUpdate(None), T.Update(""), T.Update("RK4"), F.Velocity(), F.ForceParticles(), F.Update("bracket"), S.Trilinear(), St.Compactify(), St.Append("arrays"), K.TKTime2Step()] + [RI.RELEASE_ANY_ORDER]
 LEMMAS = []
 NATIVE = [dict(name="neighbour independence, repeatability and whole-step time shift on real ROMS Grid/Forcing/Tracker/State/Output", harness="independence_bounded", kind="bounded")]
 LEVEL = "proof"
